@@ -101,6 +101,33 @@ fn nontrivial(d: &Dag) -> bool {
     d.has_diamond() || d.has_depth2()
 }
 
+fn large(ctx: &mut Ctx) {
+    let family = crate::props::common::large_family();
+    ctx.space("large-structured/all-ordered-pairs", &format!("{} large shapes (chains up to 100, fans, binary tree, ladder with 2^8 routes, total order on 12 terms, joined chains) x all ordered pairs", family.len()));
+    for (f, what) in &family {
+        if !ctx.take() {
+            continue;
+        }
+        ctx.state();
+        ctx.nontrivial();
+        let r = RefOnt::derive(f);
+        let n = f.terms.len();
+        ctx.transitions(f.n_steps() + (n * n * 7) as u64);
+        ctx.execs((n * n) as u64);
+        ctx.validateds((n * n) as u64);
+        let Ok(ont) = drive::build(f, Mode::Minimal) else {
+            ctx.violation("Builder", "[builder] construction fails on valid facts", json!({"shape": what}));
+            continue;
+        };
+        match guard(|| check_dag(&ont, &r)) {
+            Ok(None) => {}
+            Ok(Some((site, sig, det))) => ctx.violation(&site, &format!("[large shape] {sig}"), json!({"shape": what, "n_terms": n, "difference": det})),
+            Err(p) => ctx.violation("HpoTerm::path_to_term", "[large shape] panics", json!({"shape": what, "observed": p})),
+        }
+        ctx.sample(|| json!({"shape": what, "n_terms": n, "ordered_pairs": n * n}));
+    }
+}
+
 pub fn run(ctx: &mut Ctx) {
     ctx.rule = "case = one labelled DAG, all ordered pairs of its terms; distinct by construction; non-trivial = depth >= 2 or a diamond (several routes of possibly different length)".into();
     ctx.assumptions = vec!["acyclic graphs; Builder construction path (C01 establishes that the other paths build the same links)".into()];
@@ -134,4 +161,5 @@ pub fn run(ctx: &mut Ctx) {
             ctx.sample(|| json!({"dag": d.describe(), "ids": &POOL[..n], "ordered_pairs": n * n}));
         }
     }
+    large(ctx);
 }
